@@ -44,6 +44,9 @@ func account(c sessmodel.Case, r sessmodel.Result) {
 	if r.Stats.EqualCP {
 		vcore.E.Class("equal_cp_seids")
 	}
+	if r.Stats.Takeovers > 0 {
+		vcore.E.Class("with_takeover")
+	}
 	if r.Stats.Dups > 0 {
 		vcore.E.Class("with_retransmitted_request")
 	}
@@ -145,6 +148,10 @@ func TestC08(t *testing.T) {
 	}
 	g := cfg()
 	vcore.Check(t, vcore.N(1200, 12000), func(rt *rapid.T) {
+		g := g
+		// one history in three has Modifications that carry a Node ID (another SMF of the set takes a session over): what the
+		// UPF says about itself in later responses - its node id, its F-SEID address - must not change with whom it talks to
+		g.Takeover = rapid.IntRange(0, 2).Draw(rt, "takeover") == 0
 		c := sessmodel.Case{Ops: sessmodel.Gen(rt, g), Refuse: sessmodel.GenRefuse(rt)}
 		r := sessmodel.Run(c, or)
 		account(c, r)
